@@ -15,29 +15,38 @@ func init() {
 
 // VerifC17: the tinywasm file set (regenerated from /repo on every run as package zz_verif_wasm: every file whose
 // build constraint holds under the tinywasm tag, shared files included) against the default build, same symbols:
-// documents of n rows of every class (item at any depth 0..n, blank, no-bullet, empty text), options text with 4
+// documents of n rows: item rows at any depth up to two levels below the previous row (so level jumps and an
+// indented first row occur), at most one blank / no-bullet / empty-text row at any position; options text with 4
 // opaque branch strings / JSON / dry-run with 0..1 opaque extension. Same accept/reject decision; identical output
 // whenever accepted.
 func VerifC17() {
 	n := verifN()
 	var rows1, rows2 []string
 	unitKnown := false
+	prev := -1
+	badAt := int(verifChoose("badAt", 0, uint(n))) // n: no blank / malformed row
 	for i := 0; i < n; i++ {
-		kind := int(verifChoose("kind", 0, 3))
-		var d uint
-		if kind != 1 {
-			if unitKnown {
-				d = verifChoose("depth", 0, uint(n))
-			} else {
-				d = verifChoose("depth", 0, 1)
-			}
-			if d > 0 {
-				unitKnown = true
-			}
-		}
 		name := verifName("name")
-		rows1 = append(rows1, verifRow("", kind, d, name))
-		rows2 = append(rows2, verifRow("", kind, d, name))
+		if i == badAt {
+			kind := int(verifChoose("badKind", 1, 3)) // blank, no bullet, empty text
+			rows1 = append(rows1, verifRow("", kind, 0, name))
+			rows2 = append(rows2, verifRow("", kind, 0, name))
+			continue
+		}
+		// item rows: any depth up to two levels below the previous one (level jumps included); the first indented
+		// row of a document defines the unit, so its depth is 1
+		var d uint
+		if unitKnown {
+			d = verifChoose("depth", 0, uint(prev+2))
+		} else {
+			d = verifChoose("depth", 0, 1)
+		}
+		if d > 0 {
+			unitKnown = true
+		}
+		prev = int(d)
+		rows1 = append(rows1, verifRow("", 0, d, name))
+		rows2 = append(rows2, verifRow("", 0, d, name))
 	}
 	c17Compare(rows1, rows2, "any")
 }
